@@ -290,6 +290,8 @@ func TestC11(t *testing.T) {
 			p.Crowd = 6
 			p.MinBlocks, p.MaxBlocks = 8, 30
 			p.MaxTxs = 10
+			// F9 is about rewards, which this check does not compare; of block-1 staking only what F11 is about is kept out
+			p.EarlyQuiet, p.F11Narrow = false, true
 			p.W["stake"], p.W["unstake"] = 30, 22
 			p.W["propose"], p.W["vote"], p.W["deploy"], p.W["call"] = 2, 2, 1, 1
 			p.PEvidence = 8
@@ -313,6 +315,8 @@ func TestC12(t *testing.T) {
 			p.MinBlocks, p.MaxBlocks = 10, 40
 			p.MaxTxs = 8
 			p.W["stake"], p.W["unstake"] = 24, 26
+			// F9 is about rewards, which this check does not compare; of block-1 staking only what F11 is about is kept out
+			p.EarlyQuiet, p.F11Narrow = false, true
 			p.W["propose"], p.W["vote"] = 10, 12
 			p.W["deploy"], p.W["call"] = 1, 1
 			p.GovFocus = "lazyRewardBlocks"
